@@ -89,6 +89,31 @@ class Roles:
         except (StopIteration, IndexError, KeyError):
             return v, nb, st
 
+    def sites_in(self, role_views, body, bb):
+        """every copy [(view, block)] of raw site (body, bb) inside the `role_views` (a helper spliced in at several call sites, or into several
+        roles, is judged in each of its contexts); the body's own view if none of them contains it"""
+        out = []
+        for v in role_views:
+            if v.name == body.name:
+                out.append((v, bb))
+            elif body.name in self.origins_of_view(self.f.bodies[v.name]):
+                out += [(v, nb) for nb in v.locate_all(body.name, bb)]
+        return out or [(self.V(body), bb)]
+
+    def map_sites(self, role_views, body, bb, st):
+        """like sites_in, with the statement as it appears in each copy"""
+        out = []
+        idx = next((i for i, x in enumerate(body.blocks[bb]["stmts"]) if x is st), None)
+        for (v, nb) in self.sites_in(role_views, body, bb):
+            st2 = st
+            if not (v.name == body.name and nb == bb):
+                try:
+                    st2 = v.blocks[nb]["stmts"][idx] if idx is not None else st
+                except (IndexError, KeyError):
+                    st2 = st
+            out.append((v, nb, st2))
+        return out
+
     def is_role(self, role_views, body):
         return any(v.name == body.name for v in role_views)
 
@@ -104,6 +129,10 @@ class Roles:
 
     def root_views(self):
         return self._memo("root_views", lambda: [self.V(b) for b in self.roots()])
+
+    def containers(self, b):
+        """the root bodies whose views contain b's code (b itself if it is a root)"""
+        return [rb for rb in self.roots() if rb.name == b.name or b.name in self.origins_of_view(rb)] or [b]
 
     def container(self, b):
         """the root body whose view contains b's code (b itself if it is a root)"""
@@ -168,7 +197,12 @@ class Roles:
             cands = []
             for b in self.f.user_bodies():
                 if b.argc == 2 and b.ret == "bool" and re.match(r"&[\w:]*TargetActorHelper$", b.locals[1]["ty"]) and tyname(b.locals[2]["ty"]) == "ExecutionKind":
-                    cands.append(b)
+                    # the predicate that decides whether to *run*: it consults the `to_execute` flag (an accessor such as "are the dependencies of
+                    # this kind available" has the same signature but is a component of it)
+                    v = self.V(b)
+                    reads_flag = any(("field", a[1], "to_execute") == a for blk in v.normal_blocks() for st in blk["stmts"] for a in v.prov.atoms(st["lhs"]["local"], interproc=False) if a[0] == "field")
+                    if reads_flag:
+                        cands.append(b)
             called = [b for b in cands if any(calls_in(a, None, lambda n, b=b: n == b.name) for a in self.actors())]
             return [self.V(b) for b in (called or self.outermost(cands))]
         return self._memo("readiness", go)
@@ -276,17 +310,19 @@ class Roles:
             raw = self.f.bodies[cn]
             if raw.term(bb)["k"] != "call":
                 continue
-            v, nb = self.site_in(prefer, raw, bb)
-            if not self.is_role(prefer, v):
-                root = self.container(raw)
-                rv = self.V(root)
-                nb2 = rv.locate(raw.name, bb) if root.name != raw.name else bb
-                if nb2 is not None:
-                    v, nb = rv, nb2
-            if (v.name, nb) in seen:
-                continue
-            seen.add((v.name, nb))
-            out.append((v, nb, v.term(nb)))
+            copies = [(v, nb) for (v, nb) in self.sites_in(prefer, raw, bb) if self.is_role(prefer, v)]
+            if not copies:
+                # not inside a preferred role: every root view that contains the call site
+                for root in self.containers(raw):
+                    rv = self.V(root)
+                    copies += [(rv, x) for x in (rv.locate_all(raw.name, bb) if root.name != raw.name else [bb])]
+            if not copies:
+                copies = [(self.V(raw), bb)]
+            for (v, nb) in copies:
+                if (v.name, nb) in seen:
+                    continue
+                seen.add((v.name, nb))
+                out.append((v, nb, v.term(nb)))
         return out
 
     # ---- process / incremental roles
